@@ -4,8 +4,8 @@ LEVEL = "model_checking"
 MANIFEST = {
     "engine": "tlc RevList scenarios + vhdag c37",
     "technique": "TLC enumerates (grid) and draws (seeded RandomElement) small repositories - commit graph, committer times, a root tree per commit, two tags, wants, haves - and computes Need = Reach(wants) minus Reach(haves) and Reach(wants) in TLA+; revlist.Objects on the real objects must satisfy Need <= Result <= Reach(wants); git rev-list --objects is held to the same contract on a seeded sample",
-    "text": "Grid: every DAG on 4 commits x tree pattern(s) x every non-empty want set x every have set of commits x weak orders of committer times (sampled in quick, all 75 in thorough). Random: TLC-drawn scenarios on 5 commits (6 in thorough) with any tree per commit (shared subtrees, content changed back, submodule entry, missing directory), tags on any object incl. tag-of-tag, <= 3 wants/haves of any object type and a have that is not stored. Spec-level laws of Need/Reach are TLC invariants.",
-    "note": "Non-shallow stores only (the property excludes shallow ones for the upper bound); tree universe of 6 root trees / 2 subtrees / 2 blobs; git cannot be asked about an absent have (dropped on the git leg only); the painted-walk algorithm itself is not modelled - only its result is judged.",
+    "text": "Grid: every DAG on 4 commits x tree pattern(s) x every non-empty want set x every have set of commits x weak orders of committer times (sampled in quick, all 75 in thorough). Random: TLC-drawn scenarios on 5 commits (6 in thorough) with any tree per commit (shared subtrees, file or directory content changed and changed back next to an unchanged entry, submodule entry, missing directory), tags on any object incl. tag-of-tag, <= 3 wants/haves of any object type and a have that is not stored. Spec-level laws of Need/Reach are TLC invariants.",
+    "note": "Non-shallow stores only (the property excludes shallow ones for the upper bound); tree universe of 6 root trees / 2 two-entry subtrees sharing one entry / 3 blobs (depth 2); git cannot be asked about an absent have (dropped on the git leg only); the painted-walk algorithm itself is not modelled - only its result is judged.",
 }
 
 CFG = """CONSTANTS N = %d  K = %d  Mode = "%s"  Samples = %d  NPat = %d
@@ -19,13 +19,13 @@ CHECK_DEADLOCK FALSE
 def run(ctx):
     import vlib
     if ctx.thorough:
-        grid = (4, 3, 3)
+        grid = (4, 3, 4)
         tsample = 0
         rnd = [(5, 4, 16000), (6, 2, 8000)]
         gitq = 2500
     else:
-        grid = (4, 3, 1)
-        tsample = 8
+        grid = (4, 3, 2)
+        tsample = 5
         rnd = [(5, 4, 1200)]
         gitq = 250
     g = ctx.tlc("RevList", cfg_text=CFG % (grid[0], grid[1], "grid", 0, grid[2]), timeout=1500, dirname="tla-grid")
